@@ -57,8 +57,9 @@ func (e *errFS) MkdirAll(path string, perm os.FileMode) error { return e.inner.M
 
 type errFile struct {
 	fs.File
-	e   *errFS
-	seg bool
+	e     *errFS
+	seg   bool
+	wrote bool
 }
 
 func (f *errFile) WriteAt(p []byte, off int64) (int, error) {
@@ -72,9 +73,15 @@ func (f *errFile) WriteAt(p []byte, off int64) (int, error) {
 	return f.File.WriteAt(p, off)
 }
 
+// Only the first sequential Write on a handle is an injection point: the engine's
+// gob model writes a metadata file with one Write, the real encoder with several,
+// and the numbering of the injection points must agree in a native replay.
 func (f *errFile) Write(p []byte) (int, error) {
-	if f.e.failWrite && f.e.fail() {
-		return 0, errInjected
+	if f.e.failWrite && !f.wrote {
+		f.wrote = true
+		if f.e.fail() {
+			return 0, errInjected
+		}
 	}
 	return f.File.Write(p)
 }
